@@ -41,7 +41,7 @@ fn pair<T: Copy>(a: &[T]) -> Vec<[T; 2]> {
 }
 
 const FA: [f64; 8] = [0.0, 0.25, -0.25, 0.5, -0.5, 0.75, 1.0, -1.0];
-const ROUGH: [f64; 7] = [0.0, 1e-4, 1e-3, 0.1, 0.3, 0.7, 1.0];
+const ROUGH: [f64; 8] = [0.0, 1e-9, 1e-4, 1e-3, 0.1, 0.3, 0.7, 1.0];
 
 impl RF for [f32; 1] {
     const NAME: &'static str = "[f32;1]";
@@ -423,6 +423,21 @@ where
             }
             path.pop();
         }
+        // reset from this (possibly rounding-polluted) state: must restore the all-zero state
+        if t > 0 && !matches!(path.last(), Some(Act::Reset)) {
+            let mut r2 = rms.clone();
+            path.push(Act::Reset);
+            *count += 1;
+            if let Some((k, m)) = rough_reset::<F>(n, &mut r2) {
+                let case = case_json(F::NAME, n, "rough", path);
+                let p2 = path.clone();
+                ctx.violation(&k, case, m, Some(&move || rough_path::<F>(n, &p2).map(|e| e.1)));
+            } else {
+                let zero: VecDeque<f64> = (0..n).map(|_| 0.0).collect();
+                rec(ctx, n, alpha, &r2, &zero, 0, depth - 1, path, count);
+            }
+            path.pop();
+        }
     }
     let rms = Rms::<F, Vec<F::Float>>::new(Fixed::from(vec![<F::Float as Frame>::EQUILIBRIUM; n]));
     let last: VecDeque<f64> = (0..n).map(|_| 0.0).collect();
@@ -448,6 +463,25 @@ where
     None
 }
 
+/// reset() in the tolerant runs: whatever rounding left behind, the state must be all zero afterwards
+fn rough_reset<F: RF>(n: usize, rms: &mut Rms<F, Vec<F::Float>>) -> Option<Bad>
+where
+    F::Float: Copy + Debug,
+{
+    rms.reset();
+    let (win, sum) = rms.clone().into_parts();
+    let w: Vec<f64> = win.iter().flat_map(|f| F::fl(*f)).collect();
+    let s = F::fl(sum);
+    if w.iter().any(|x| *x != 0.0) || s.iter().any(|x| *x != 0.0) {
+        return Some(("rms.reset".into(), format!("{} N={n}: reset() left window {w:?} and running sum {s:?}, expected the all-zero state", F::NAME)));
+    }
+    let c = F::fl(rms.current());
+    if c.iter().any(|x| !(*x >= 0.0) || *x > 1e-18) {
+        return Some(("rms.reset".into(), format!("{} N={n}: current() after reset() = {c:?}", F::NAME)));
+    }
+    None
+}
+
 fn rough_path<F: RF>(n: usize, acts: &[Act]) -> Option<Bad>
 where
     F::Float: Copy + Debug,
@@ -455,14 +489,28 @@ where
     let alpha = F::rough();
     let mut rms = Rms::<F, Vec<F::Float>>::new(Fixed::from(vec![<F::Float as Frame>::EQUILIBRIUM; n]));
     let mut last: VecDeque<f64> = (0..n).map(|_| 0.0).collect();
-    for (t, a) in acts.iter().enumerate() {
-        if let Act::Next(i) = a {
-            let f = alpha[*i as usize];
-            last.pop_front();
-            last.push_back(f.amps()[0]);
-            if let Some(b) = rough_step::<F>(n, &mut rms, &last, f, t + 1) {
-                return Some(b);
+    let mut t = 0;
+    for a in acts.iter() {
+        match a {
+            Act::Next(i) => {
+                let f = alpha[*i as usize];
+                last.pop_front();
+                last.push_back(f.amps()[0]);
+                t += 1;
+                if let Some(b) = rough_step::<F>(n, &mut rms, &last, f, t) {
+                    return Some(b);
+                }
             }
+            Act::Reset => {
+                if let Some(b) = rough_reset::<F>(n, &mut rms) {
+                    return Some(b);
+                }
+                for x in last.iter_mut() {
+                    *x = 0.0;
+                }
+                t = 0;
+            }
+            _ => {}
         }
     }
     None
@@ -590,7 +638,7 @@ fn main() {
     }
     let nmax = ctx.tier.pick(3, 4);
     ctx.rule(&format!("build={}: merged — stateright BFS to fixpoint over the real Rms detector, state = (first, window contents, running sum) read with clone().into_parts(), rebuilt per transition by replaying the BFS witness history on a fresh detector; window N=1..={nmax}; frames [f32;1] [f32;2] [f64;1] [i16;2] [u8;1]; exact dyadic alphabets (every square and window sum exact); actions next(a)/next_squared(a)/current()/reset(); oracle: exact mean of the squares of the last N inputs, sqrt within {} , internal window == squares of the last N inputs and running sum == exact sum after every operation; distinct by (state, action, observation)", if NOSTD {"no_std"} else {"std"}, if NOSTD {"7% + 1e-18 (approximate sqrt)"} else {"2 ulp"}));
-    ctx.rule("cancellation — unmerged DFS over every history of length <= 2N+2 over the non-dyadic alphabet {0,1e-4,1e-3,0.1,0.3,0.7,1.0}, f32 and f64 mono, N=1..=3: mean square within 4(t+N)eps of the f64 recomputation, never negative or NaN, next() == sqrt(next_squared()) within the build's sqrt tolerance");
+    ctx.rule("cancellation — unmerged DFS over every history of length <= 2N+2 over the non-dyadic alphabet {0,1e-9,1e-4,1e-3,0.1,0.3,0.7,1.0} plus reset() after any prefix, f32 and f64 mono, N=1..=3: mean square within 4(t+N)eps of the f64 recomputation, never negative or NaN, next() == sqrt(next_squared()) within the build's sqrt tolerance, reset() restores the all-zero state (window and running sum read back) even when rounding has absorbed small squares");
     ctx.rule("drift — one long deterministic burst/silence run per (format, N in {1,7,64,1000}); labelled single executions");
     if !NOSTD {
         ctx.rule("adaptor — signal.rms(ring) over every 4-frame source over the [f32;2] alphabet, N=1..=3, 6 outputs: bit-identical to the detector fed the same frames, one source pull per output, is_exhausted forwarded");
